@@ -14,6 +14,10 @@ Proof. exact gumbel_hard_values. Qed.
 Theorem C17_hard_event : forall x u tau t, 0 < tau -> 0 < t < 1 ->
   (t < gumbel_soft x u tau <-> tau * logit t < x + noise u).
 Proof. exact hard_event. Qed.
+(* a threshold <= 0 is always exceeded and a threshold >= 1 never (the soft sample lies strictly inside (0,1)): what _hard_cut returns *)
+Theorem C17_hard_threshold_outside : forall x u tau t,
+  (t <= 0 -> gumbel_hard x u tau t = 1) /\ (1 <= t -> gumbel_hard x u tau t = 0).
+Proof. exact hard_threshold_outside. Qed.
 Theorem C17_hard_temperature_independent : forall x u tau1 tau2, 0 < tau1 -> 0 < tau2 ->
   gumbel_hard x u tau1 (/ 2) = gumbel_hard x u tau2 (/ 2).
 Proof. exact hard_temperature_independent. Qed.
@@ -56,3 +60,4 @@ Eval compute in "PA:C17_guard"%string. Print Assumptions C17_guard.
 Eval compute in "PA:C17_layer_hard_single_gate"%string. Print Assumptions C17_layer_hard_single_gate.
 Eval compute in "PA:C17_layer_soft_mixture"%string. Print Assumptions C17_layer_soft_mixture.
 Eval compute in "PA:C17_sampling_source"%string. Print Assumptions C17_sampling_source.
+Eval compute in "PA:C17_hard_threshold_outside"%string. Print Assumptions C17_hard_threshold_outside.
